@@ -18,6 +18,9 @@ THEOREMS = [
     "Vinegar.C09.peer_error_silent",
     "Vinegar.C09.invalid_packet_one_error",
     "Vinegar.C09.foreign_gets_error5",
+    "Vinegar.C09.foreign_then_pkt",
+    "Vinegar.C09.foreign_then_silence",
+    "Vinegar.C09.foreign_then_end",
 ]
 TRUSTED_BASE = T.TRUSTED_BASE
 ASSUMPTIONS = T.ASSUMPTIONS
@@ -91,7 +94,7 @@ def gen(rng, tier, mult=1):
     for op in range(0, 9):
         for tail in (b"\0", b"\0\0", b"a", b"a\0", b"a\0b\0", b"\0\0\0", b"\x00\x01", b"\xff"):
             yield port_case(bytes([0, op]) + tail)
-    n = (400 if tier == "quick" else 8000) * mult
+    n = (1500 if tier == "quick" else 20000) * mult
     for i in range(n):
         b = gen_rrq_bytes(rng)
         if i % 3 == 0:
@@ -106,7 +109,7 @@ def gen(rng, tier, mult=1):
     for names in ([], ["g"], ["f"]):
         yield port_case(T.rrq_packet("f", "octet", []), handlers=[{"accept": names, "result": dict(SMALL)}], style="accept")
     # (b) packets injected into transfers
-    m = (300 if tier == "quick" else 5000) * mult
+    m = (1200 if tier == "quick" else 20000) * mult
     for i in range(m):
         yield T.gen_transfer_case(rng, script_style=["abort", "abort", "faulty", "random"][i % 4], simple_cfg=True,
                                   bs_choices=[8, 16], fault=(i % 7 == 0))
